@@ -22,7 +22,8 @@ def modeb(res, cases, model):
     """compile the items with the real derives: expected-reject items in one crate, expected-accept items in another"""
     groups = {'rej': [], 'acc': []}
     for c, m in zip(cases, model):
-        if m == 'reject':
+        if m == 'reject' or c.get('rustc_rejects'):
+            # (rustc_rejects: the macro emits code for it, the generated code does not compile - the item is rejected all the same)
             groups['rej'].append(c)
         elif m == 'accept':
             groups['acc'].append(c)
@@ -121,11 +122,11 @@ def run(tier, seed, rng):
     # mode B: real rustc, all derives incl. FromRepr; sampled in the quick tier
     bcases, bmodel = [], []
     for i, (c, m) in enumerate(zip(cases, model)):
-        if c['rule'].endswith('modeA-only'):
+        if c['rule'].endswith('modeA-only') and not c.get('rustc_rejects'):
             continue
         if c['rule'].startswith('R4-disc') and c['derive'] != 'EnumDiscriminants':
             continue  # `strum_discriminants` is a helper attribute of EnumDiscriminants only: rustc itself rejects it elsewhere
-        if tier == 'thorough' or c['derive'] == 'FromRepr' or i % 4 == 0:
+        if tier == 'thorough' or c['derive'] == 'FromRepr' or i % 4 == 0 or c.get('rustc_rejects'):
             bcases.append(c)
             bmodel.append(m)
     bstats = modeb(res, bcases, bmodel)
